@@ -248,7 +248,11 @@ example : ([[1,2,0,8,0,0,0,1, 1], [3,0,8,0,0,0,5, 1,4,0,8,0,0,0,6]].foldl (ctlFe
 
 `OpenFlow_01_Task.run` and `RecocoIOLoop.run` get the list of ALL readable connections from one `select` and serve them one
 after the other.  `serveRound feed net items` is that round (`items` = the readable connections with the bytes their sockets
-hold, in service order; a connection is readable at most once per round: `Nodup`).  The harness runs such rounds against
+hold, in service order; a connection is readable at most once per round: `Nodup`).  One thing the real controller loop does
+is NOT a step of this model: when a read raises, `run`'s `except:` closes that connection and ABANDONS the rest of the round;
+the connections not yet served keep their unread bytes, select (level-triggered) reports them again and the following
+round(s) serve them — `serveRound` is the round together with those completions (assumption, exercised by the harness, whose
+scripted select re-reports unread sockets exactly like that).  The harness runs such rounds against
 the real loops in every service order, and asks the single-connection model about each connection on its own: the next
 theorems are why that is enough. -/
 
@@ -279,13 +283,35 @@ theorem ctl_round_contained (U : Unpack Msg) (items : List (Nat × Bytes)) :
     intro net h
     exact ih _ (ctl_task_contained U net e.1 e.2 h).1
 
-/-- the controller's round IS `serveRound` of its per-connection step (so the two theorems above apply to it) -/
+/-- the fold of `ctlServe` over a round is `serveRound` of the per-connection step `ctlStep` (definitional: `ctlServe` is
+`feedAt ctlStep`) -/
 theorem ctl_round_is_serveRound (U : Unpack Msg) (net : List (CS Msg)) (items : List (Nat × Bytes)) :
-    items.foldl (fun n e => ctlServe U n e.1 e.2) net
-      = serveRound (fun c ch => let r := ctlFeed U 8 c ch
-                                if r.st = .dead then { r with st := .closed } else r) net items := rfl
+    items.foldl (fun n e => ctlServe U n e.1 e.2) net = serveRound (ctlStep U) net items := rfl
 
-/-! non-vacuity: three connections, 0 gets a message with length field 4 (gives up), 2 gets a valid one; both orders -/
+/-- **ctl_round_completes** — the round AS THE CODE RUNS IT.  `ctlRound` serves the readable connections in order and, as
+soon as one read raises, closes that connection and returns the rest UNSERVED (the `except:` of `run` is outside the
+`for con in rlist` loop); `ctlRounds fuel` repeats passes on what is still unread (level-triggered select).  Every pass
+serves at least one connection, so after at most as many passes as there were readable connections nothing is left unread and
+all connections are in exactly the states `serveRound` gives — to which `round_order_irrelevant`, `round_independent` and
+`ctl_round_contained` apply.  What stays assumed: select reports an unread socket again, and what it then reads is what it
+would have read (more bytes may have arrived meanwhile: that reads may be cut anywhere is C02's theorem). -/
+theorem ctl_round_completes (U : Unpack Msg) (net : List (CS Msg)) (items : List (Nat × Bytes)) (fuel : Nat)
+    (h : items.length ≤ fuel) :
+    ctlRounds U fuel net items = (serveRound (ctlStep U) net items, []) ∧
+    (ctlRound U net items).2.length ≤ items.length - 1 ∧
+    serveRound (ctlStep U) (ctlRound U net items).1 (ctlRound U net items).2 = serveRound (ctlStep U) net items :=
+  ⟨ctlRounds_completes U fuel net items h, ctlRound_shorter U items net, ctlRound_completes U items net⟩
+
+/-! Scope: the listening socket is not a connection of this model.  An exception while ACCEPTING a connection (other than
+ECONNRESET / EMFILE) ends `run` for every connection (of_01.py, `do_break`); no bytes on an established connection can cause
+it, so it is outside what this property quantifies over — "the loop keeps running" is established here for faults arriving as
+bytes, end of stream or socket errors on established connections only.
+
+`round_order_irrelevant` / `round_independent` are facts about how the model COMPOSES connections (each has its own state,
+`feedAt` touches index `i` only); that the real loop has no other state shared between connections of one round is what the
+harness's rounds (every service order, companions, sibling loss) test. -/
+
+/-! non-vacuity: three connections; 0 gets a message with length field 4 (gives up), 2 gets a valid one; both orders -/
 example : ((serveRound (ctlFeed demoU 8) [init, init, init] [(0, [1,2,0,4,0,0,0,1]), (2, [1,2,0,8,0,0,0,1])]).map (·.st))
             = [.closed, .alive, .alive] ∧
           (serveRound (ctlFeed demoU 8) [init, init, init] [(0, [1,2,0,4,0,0,0,1]), (2, [1,2,0,8,0,0,0,1])]).map
@@ -294,5 +320,12 @@ example : ((serveRound (ctlFeed demoU 8) [init, init, init] [(0, [1,2,0,4,0,0,0,
               (fun x => (x.st, x.delivered, x.buf)) ∧
           ((serveRound (ctlFeed demoU 8) [init, init, init] [(0, [1,2,0,4,0,0,0,1]), (2, [1,2,0,8,0,0,0,1])]).map (·.delivered))
             = [[], [], [2]] := by decide
+/-! … and a read that RAISES (decoder of type 9) on connection 0, listed first: the first pass closes 0 and leaves 2 unserved,
+the second pass serves 2; the outcome is `serveRound`'s -/
+example : let items : List (Nat × Bytes) := [(0, [1,9,0,8,0,0,0,2]), (2, [1,2,0,8,0,0,0,1])]
+          ((ctlRound demoU [init, init, init] items).1.map (·.st) = [.closed, .alive, .alive]) ∧
+          ((ctlRound demoU [init, init, init] items).2 = [(2, [1,2,0,8,0,0,0,1])]) ∧
+          ((ctlRounds demoU 2 [init, init, init] items).1.map (fun x => (x.st, x.delivered)) = [(.closed, []), (.alive, []), (.alive, [2])]) ∧
+          ((ctlRounds demoU 2 [init, init, init] items).2 = []) := by decide
 
 end Pox.C10
